@@ -930,6 +930,13 @@ class Run:
         new = list(dict.fromkeys(new))
         if not all(self.move_ok(x, pa["obj"]) and self.pair_ok(pa["obj"], x) for x in new):
             return "skip"
+        for x in new:
+            if OS.state_of(x) == "persistent" and not OS.loaded(x, "a")[0]:
+                # same rule as op_set_parent / op_bs_append: the many-to-one side does not load its previous value, so the previous parent
+                # cannot be told; applications read the reference first (without autoflush and with pending work that read is stale: skip)
+                if not self.cfg.get("autoflush", True) and (self.session.new or self.session.dirty or self.session.deleted):
+                    return "skip"
+                x.a
         before_members = self.members()
         if not all(self.member_ok(x) for x in pa["obj"].bs):
             return "skip"
